@@ -1,0 +1,12 @@
+//go:build verif
+
+// Contracts (w-c19) for pkg/ctxfs. Comments only.
+package ctxfs
+
+// TRUSTED: RuntimeFsFrom returns the afero.Fs stored in the context (or the default OS fs). Its body does
+// `v.(afero.Fs)` on a context value stored under a private key; that this never panics and never yields nil
+// is an invariant of context values (only RuntimeFsOnto stores under the key) that is not proved here.
+//@ func RuntimeFsFrom(ctx)
+//@   trusted
+//@   assigns nothing
+//@   ensures result != nil
